@@ -31,7 +31,7 @@ SHARD_TIMEOUT = {"quick": 280, "thorough": 3000}
 PAR = 8
 BOUND = 25.0
 
-ACTS = ["idle", "blocked", "busy", "sleep", "swallow_kbi", "sigint_ignored", "daemon_threads", "flood", "big_transfer"]
+ACTS = ["idle", "blocked", "busy", "sleep", "swallow_kbi", "sigint_ignored", "daemon_threads", "flood", "big_transfer", "endmarker_raises"]
 GEVENT_ACTS = ["idle", "blocked", "gevent_sleep", "gevent_busy", "gevent_timesleep"]
 REMOVALS = ["sigkill", "sigterm", "os_exit", "normal_exit", "close_connection", "during_bootstrap"]
 TOPOS = ["popen", "python", "via", "socket"]
@@ -245,6 +245,9 @@ def run_shard(spec):
     if spec["shard"] == 0:
         cases[0].update(gen_fixed("popen", "thread", "sigint_ignored", "sigkill"))
         cases[1].update(gen_fixed("popen", "main_thread_only", "swallow_kbi", "os_exit"))
+    if spec["shard"] == 2:
+        cases[0].update(gen_fixed("popen", "thread", "endmarker_raises", "sigkill"))
+        cases[1].update(gen_fixed("python", "main_thread_only", "endmarker_raises", "os_exit"))
     if spec["shard"] == 1:
         cases[0].update(gen_fixed("python", "thread", "busy", "sigkill"))
         cases[1].update(gen_fixed("popen", "thread", "blocked", "close_connection"))
